@@ -217,6 +217,39 @@ Proof.
   intros Hs. apply (f_equal (@length N)) in Hs. rewrite skipn_length in Hs. cbn in Hs. lia.
 Qed.
 
+(* the characters of a line come from the chunks *)
+Lemma dropblank_chars (P : N -> Prop) cur2 : Forall P (concat cur2) -> Forall P (concat (dropblank cur2)).
+Proof. destruct (dropblank_spec cur2) as (B & HB & _). rewrite HB at 1. rewrite concat_app. intros H. apply Forall_app in H. tauto. Qed.
+Lemma wstep_chars (P : N -> Prop) width c0 r0 lines line rest2 : wstep width c0 r0 lines = (line, rest2) ->
+  Forall P (concat (c0 :: r0)) -> Forall P (concat line) /\ Forall P (concat rest2).
+Proof.
+  unfold wstep. intros H Hall.
+  set (cs1 := if blank c0 && _ then r0 else c0 :: r0) in H.
+  assert (H0 : Forall P (concat cs1)).
+  { subst cs1. destruct (blank c0 && _); [|exact Hall]. cbn [concat] in Hall. apply Forall_app in Hall. tauto. }
+  destruct (fill_line_spec width cs1 [] 0) as (taken & rest & H1 & H2 & _).
+  cbn [app Nat.add] in H1. rewrite H1 in H. rewrite H2, concat_app in H0. apply Forall_app in H0. destruct H0 as [Ht Hr].
+  destruct rest as [|c r].
+  { injection H as <- <-. split; [now apply dropblank_chars|exact Hr]. }
+  destruct (Nat.ltb width (length c)).
+  2:{ injection H as <- <-. split; [now apply dropblank_chars|exact Hr]. }
+  cbv zeta in H. injection H as <- <-. cbn [concat] in Hr. apply Forall_app in Hr. destruct Hr as [Hc Hr].
+  rewrite <- (firstn_skipn (break_at c (width - length (concat taken))) c) in Hc. apply Forall_app in Hc. destruct Hc as [Hc1 Hc2].
+  split.
+  - apply dropblank_chars. rewrite concat_app. apply Forall_app. split; [exact Ht|]. cbn [concat]. now rewrite app_nil_r.
+  - cbn [concat]. apply Forall_app. auto.
+Qed.
+Lemma wrap_chunks_chars (P : N -> Prop) width : forall f cs lines ls, wrap_chunks f width cs lines = Some ls ->
+  Forall P (concat cs) -> Forall P (concat lines) -> Forall P (concat ls).
+Proof.
+  induction f as [|f IH]; intros cs lines ls H Hc Hl; [discriminate|].
+  destruct cs as [|c0 r0]; [cbn in H; injection H as <-; exact Hl|].
+  rewrite wrap_chunks_S in H. destruct (wstep width c0 r0 lines) as [line rest2] eqn:E. cbn [fst snd] in H.
+  apply (wstep_chars P) in E; [|exact Hc]. destruct E as [E1 E2].
+  apply IH in H; [exact H|exact E2|]. destruct line; [exact Hl|]. rewrite concat_app. apply Forall_app. split; [exact Hl|].
+  cbn [concat]. now rewrite app_nil_r.
+Qed.
+
 (* ---- the loop ---- *)
 Definition fits (width : nat) (l : str) : Prop := length l <= width.
 
@@ -297,3 +330,18 @@ Proof.
   intros text w ls H. apply wrap_ok_chunks in H. destruct H as [Hw H].
   apply wrap_chunks_text in H. rewrite chunks_concat in H. exact H.
 Qed.
+
+(* every character of a line is a character of the munged text; in particular no line holds a newline *)
+Lemma wrap_lines_chars_lemma (P : N -> Prop) : forall text w ls, wrap text w = Ok ls -> Forall P (munge text) -> Forall (Forall P) ls.
+Proof.
+  intros text w ls H HP. apply wrap_ok_chunks in H. destruct H as [Hw H].
+  apply (wrap_chunks_chars P) in H; [|rewrite chunks_concat; exact HP|constructor].
+  clear - H. induction ls as [|l ls IH]; [constructor|]. cbn [concat] in H. apply Forall_app in H. destruct H. constructor; auto.
+Qed.
+Lemma munge_no_newline text : Forall (fun c => c <> 10%N) (munge text).
+Proof.
+  unfold munge. apply Forall_forall. intros c Hc. apply in_map_iff in Hc. destruct Hc as (x & <- & _).
+  destruct (tw_space x) eqn:E; [discriminate|]. intros ->. discriminate.
+Qed.
+Lemma wrap_lines_no_newline_lemma : forall text w ls, wrap text w = Ok ls -> Forall (Forall (fun c => c <> 10%N)) ls.
+Proof. intros text w ls H. eapply wrap_lines_chars_lemma; [exact H|apply munge_no_newline]. Qed.
